@@ -143,3 +143,26 @@ Proof.
   destruct (admits_sound _ _ _ _ _ _ H) as [r [Hr E]]. exists r. split; [exact Hr|].
   now rewrite E, string_app_nil_r.
 Qed.
+
+Lemma any_layout_same_tokens : forall (d : doc) (r : list atom),
+  In r (renderings d) -> words r = dwords d.
+Proof. intros d r. exact (rs_words d false 0 None r). Qed.
+
+Lemma emits_all_same_tokens : forall (ind : nat) (c : cst) (r : list atom),
+  emits_all ind c -> In r (renderings (doc_of ind c)) -> words r = cst_words c.
+Proof. intros ind c r E H. rewrite <- E. exact (rs_words _ false 0 None r H). Qed.
+
+Lemma idempotent_partial :
+  forall (ind : nat) (parse : string -> option cst) (pick : doc -> string),
+  (forall d d', same_doc d d' = true -> pick d = pick d') ->
+  (forall s c, parse s = Some c ->
+     exists c', parse (pick (doc_of ind c)) = Some c' /\ same_doc (doc_of ind c') (doc_of ind c) = true) ->
+  forall s o,
+    option_map (fun c => pick (doc_of ind c)) (parse s) = Some o ->
+    option_map (fun c => pick (doc_of ind c)) (parse o) = Some o.
+Proof.
+  intros ind parse pick Hpick Hre s o H.
+  destruct (parse s) as [c|] eqn:E; cbn in H; [|discriminate].
+  inversion H; subst o. destruct (Hre s c E) as [c' [E' D]].
+  rewrite E'. cbn. f_equal. now apply Hpick.
+Qed.
